@@ -124,8 +124,12 @@ Inductive obs :=
 
 Definition vis_msg (e : ev) : list obs :=
   match e with Up d z => [OMsg d z] | Dn d => [ODn d] | EFault => [ODead 2] | ELive => [ODead 3] | _ => [] end.
+(* stream layers: the upward byte stream; a clobbered buffer-size field of the caller is visible too *)
 Definition vis_str (e : ev) : list obs :=
-  match e with Up d z => map OByte d | Dn d => [ODn d] | EFault => [ODead 2] | ELive => [ODead 3] | _ => [] end.
+  match e with
+  | Up d z => map OByte d ++ (if 0 <=? z then [OMsg [] z] else [])
+  | Dn d => [ODn d] | EFault => [ODead 2] | ELive => [ODead 3] | _ => []
+  end.
 Definition vis (f : ev -> list obs) (es : list ev) : list obs := flat_map f es.
 
 (** a call is clean when every strict read was satisfied in full and no defective path was taken *)
